@@ -27,22 +27,40 @@ RULE = ('cases = 1-3 particle arrays with distinct identifier names, each '
         'Ghost}, output-array list = drawn subset or empty (= all); solver '
         'data t, dt, count plus 0-3 numeric extras; x {npz, hdf5} x compress '
         'x detailed_output x only_real x file name with/without extension '
-        'x optionally dumping the loaded arrays once more (npz or hdf5) and '
-        're-loading, solver data as Python or numpy scalars. '
+        'x optionally dumping the loaded arrays once more (npz or hdf5, same '
+        'or other detailed/only_real options) and '
+        're-loading, solver data as Python or numpy scalars, str and bool '
+        'values, or an empty dict; 0 arrays allowed; names include non-ASCII '
+        'identifiers; zero defaults; x call style (keywords, positional, '
+        'documented defaults omitted, Output classes used directly and '
+        're-used for dump and load, single-rank communicator) x loader '
+        '(load, Output.load, iter_output with and without array names) x '
+        'dotted directory/base names x optional history (the same arrays '
+        'dumped once before in another state: particles removed/added and a '
+        'property added afterwards, other output list). '
         'v1 shards synthesise version-1 npz files (stride 1, str or bytes '
         'keys). Non-trivial = (>= 1 stored property that is non-double or '
         'strided, and >= 1 ghost/remote particle) or an array with zero '
         'particles; distinct by case hash.')
 ASSUMPTIONS = [
-    'property / constant / array names are identifiers other than the '
-    'keyword names of the ParticleArray and get_particle_array constructors '
-    '(name, constants, backend, default_particle_tag, additional_props)',
+    'property / constant / array names are identifiers (ASCII or not) or '
+    'other strings with blanks, dots, dashes or a leading digit, but never '
+    'contain "/" and are never "." (HDF5 path syntax: such names do not '
+    'survive the hdf5 writer; not generated), and are not keyword names of '
+    'the ParticleArray and get_particle_array constructors (name, constants, '
+    'backend, default_particle_tag, additional_props)',
     'defaults and values are representable in the C type of their property; '
     'tag, pid and gid keep their built-in type and default',
     'the uid property is always among the stored properties (it identifies '
     'the particles)',
     'solver data values are finite 64-bit ints and floats (Python or numpy '
-    'scalars)',
+    'scalars), bools and str; a str must come back as an equal str, a bool '
+    'as an equal bool/numpy.bool_',
+    'a duck-typed communicator with one rank (gather -> [data], rank 0, '
+    'size 1) must give the same file as mpi_comm=None (documented: only rank '
+    '0 dumps the gathered output)',
+    'iter_output(files[, names]) is documented to load the files and yield '
+    'the solver data and the (requested) arrays: it is used as a loader',
     'with only_real the expected tags of the loaded particles are all Local; '
     'when tag is not stored the loaded tags are the default (Local), and '
     'num_real_particles is checked against the loaded tags',
@@ -58,7 +76,14 @@ ESSENTIAL_LABELS = {'all': [
     'nonstored_strided', 'output_all',
     'output_subset', 'multi_array', 'constants', 'tag_not_stored',
     'solver_extras', 'noext', 'again:npz', 'again:hdf5', 'np_solver', 'v1',
-    'v1_bytes', 'v1_nonlocal']}
+    'v1_bytes', 'v1_nonlocal',
+    'call:pos', 'call:defaults', 'default_only_real', 'call:class',
+    'call:class_defaults', 'call:comm', 'loader:class', 'loader:iter',
+    'loader:iter_named', 'history', 'history_class_reuse', 'late_prop',
+    'held_back', 'decoys_removed', 'dotted_path', 'dotted_noext',
+    'unicode_name', 'unicode_output', 'zero_default', 'no_arrays',
+    'sd_empty', 'sd_str', 'sd_bool', 'again_other_opts', 'v1_sd_str',
+    'big_long_default', 'big_long_value', 'sd_big_int', 'odd_name']}
 
 UINT_MAX = (1 << 32) - 1
 TYPES = ['double', 'float', 'int', 'long', 'unsigned int']
@@ -68,13 +93,19 @@ NPT = {'double': 'f8', 'float': 'f4', 'int': 'i4', 'long': 'i8',
 CONST_CT = {'f8': 'double', 'f4': 'float', 'i8': 'long', 'i4': 'long'}
 
 PROP_NAMES = ['x', 'y', 'h', 'rho', 'vel', 'a_1', 'T', 'Fx', '_q', 'auhat',
-              'data', 'type', 'stored', 'arrays', 'default', 'm0', 'R2']
+              'data', 'type', 'stored', 'arrays', 'default', 'm0', 'R2',
+              '\u03c1', '\u0394p', 'a b', 'x.y', '2nd', 'p-q']
 CONST_NAMES = ['c0', 'alpha', 'total_mass', 'cm', 'version', 'particles',
-               'K_']
+               'K_', '\u03bd0', 'c-1', 'k.1']
 ARRAY_NAMES = ['fluid', 'solid', 'a', 'boundary_1', 'Inlet', '_b',
-               'solver_data', 'arrays']
+               'solver_data', 'arrays', 'fl\u00fcssig', 'fluid-1',
+              'my fluid', 'a.b']
 EXTRA_NAMES = ['tf', 'pfreq', 'max_steps', 'cfl', '_x', 'arrays', 'name',
-               'version', 'particles']
+               'version', 'particles', '\u03c4', 'a b']
+
+
+BIG_LONGS = [2 ** 63 - 1, -2 ** 63, 2 ** 53 + 1, -2 ** 53 - 1,
+             2 ** 62 + 12345, -2 ** 61 - 7, 10 ** 18 + 1]
 
 
 # ---------------------------------------------------------------- generation
@@ -89,15 +120,22 @@ def value_st(t):
                                    width=32))
     if t == 'int':
         return st.one_of(st.integers(-9, 9),
-                         st.integers(-2 ** 31, 2 ** 31 - 1))
+                         st.integers(-2 ** 31, 2 ** 31 - 1),
+                         st.sampled_from([2 ** 31 - 1, -2 ** 31]))
     if t == 'long':
+        # values a double cannot hold must be frequent (Hypothesis prefers
+        # small magnitudes)
         return st.one_of(st.integers(-9, 9),
-                         st.integers(-2 ** 63, 2 ** 63 - 1))
-    return st.one_of(st.integers(0, 9), st.integers(0, UINT_MAX))
+                         st.integers(-2 ** 63, 2 ** 63 - 1),
+                         st.sampled_from(BIG_LONGS))
+    return st.one_of(st.integers(0, 9), st.integers(0, UINT_MAX),
+                     st.sampled_from([UINT_MAX, 2 ** 31, UINT_MAX - 1]))
 
 
 def default_st(t):
-    return value_st(t).filter(lambda v: v != 0)
+    nz = value_st(t).filter(lambda v: v != 0)
+    zero = 0.0 if t in ('double', 'float') else 0
+    return st.one_of(nz, nz, nz, nz, st.just(zero))
 
 
 @st.composite
@@ -163,12 +201,33 @@ def solver_data_st(draw):
     sd = dict(t=draw(st.floats(0, 1e6, allow_nan=False)),
               dt=draw(st.floats(1e-12, 1e3, allow_nan=False)),
               count=draw(st.integers(0, 10 ** 7)))
+    if draw(st.sampled_from([0] * 11 + [1])):
+        return {}
     for k in draw(st.lists(st.sampled_from(EXTRA_NAMES), min_size=0,
                            max_size=3, unique=True)):
         sd[k] = draw(st.one_of(
             st.integers(-2 ** 63, 2 ** 63 - 1), st.integers(-9, 9),
-            st.floats(allow_nan=False, allow_infinity=False)))
+            st.sampled_from(BIG_LONGS),
+            st.floats(allow_nan=False, allow_infinity=False),
+            st.floats(allow_nan=False, allow_infinity=False),
+            st.booleans(),
+            st.sampled_from(['abc', 'a b', 'out_3.npz', '\u00fc\u03c1'])))
     return sd
+
+
+@st.composite
+def pre_st(draw, a):
+    """An earlier state of array `a` (see build_array / grow_array)."""
+    cands = [p['name'] for p in a['props']
+             if p['name'] not in ('pid', 'gid', 'uid')]
+    late = draw(st.sampled_from([None] + cands)) if cands else None
+    avail = [p['name'] for p in a['props'] if p['name'] != late] + ['tag']
+    if draw(st.booleans()):
+        out = []
+    else:
+        out = [x for x in avail if x == 'uid' or draw(st.booleans())]
+    return dict(hold=draw(st.integers(0, min(a['n'], 3))), late=late,
+                extra=draw(st.integers(0, 3)), output=out)
 
 
 @st.composite
@@ -176,6 +235,8 @@ def case_strategy(draw, mode, fmt, bytes_keys=False):
     v1 = mode == 'v1'
     names = draw(st.lists(st.sampled_from(ARRAY_NAMES), min_size=1,
                           max_size=3, unique=True))
+    if draw(st.sampled_from([0] * 15 + [1])):
+        names = []      # an empty list of arrays is a list of arrays
     arrays = [draw(array_st(nm, v1)) for nm in names]
     case = dict(mode=mode, fmt=fmt, arrays=arrays,
                 solver_data=draw(solver_data_st()),
@@ -188,6 +249,22 @@ def case_strategy(draw, mode, fmt, bytes_keys=False):
         case['again'] = draw(st.sampled_from([None, None, 'npz', 'hdf5']))
         case['np_solver'] = draw(st.booleans())
         case['ext'] = True if fmt == 'npz' else draw(st.booleans())
+        case['call'] = draw(st.sampled_from(
+            ['kw', 'pos', 'defaults', 'defaults', 'class', 'class_defaults',
+             'comm']))
+        case['loader'] = draw(st.sampled_from(
+            ['load', 'load', 'class', 'iter', 'iter_named']))
+        case['path'] = draw(st.sampled_from(
+            ['plain', 'plain', 'dotdir', 'dotbase', 'dotboth']))
+        if draw(st.sampled_from([0, 0, 1])):
+            case['pre'] = [draw(pre_st(a)) for a in arrays]
+        else:
+            case['pre'] = None
+        if case['again'] and draw(st.booleans()):
+            case['again_opts'] = dict(detailed=draw(st.booleans()),
+                                      only_real=draw(st.booleans()))
+        else:
+            case['again_opts'] = None
     return case
 
 
@@ -208,22 +285,170 @@ def prop_table(a):
     return tab
 
 
-def build_array(a):
+def expectation(a, rounds):
+    """What is expected after the dump/load rounds [(detailed, only_real)]:
+    names of the properties that still carry the model's values, indices of
+    the surviving particles, their expected tags."""
+    keep = list(range(a['n']))
+    tags = list(a['tags'])
+    stored = None
+    for detailed, only_real in rounds:
+        now = stored_names(a, detailed)
+        stored = now if stored is None else [x for x in stored if x in now]
+        if only_real:
+            sel = [j for j, t in enumerate(tags) if t == 0]
+            keep = [keep[j] for j in sel]
+            tags = [tags[j] for j in sel]
+        if 'tag' not in stored:
+            tags = [0] * len(keep)
+    return stored, keep, tags
+
+
+DECOY_UID = 2000
+
+
+def build_array(a, pre=None):
+    """The array of the model; with `pre` an earlier state of it: the last
+    `hold` particles and the property `late` are missing, `extra` decoy
+    particles (uid >= 2000) are present and the output list is another."""
     import numpy as np
     from pysph.base.particle_array import ParticleArray
     tab = prop_table(a)
     names = [p['name'] for p in a['props']] + ['tag']
     kw = {}
+    n0 = a['n'] - (pre['hold'] if pre else 0)
+    ne = pre['extra'] if pre else 0
     for i in a['order']:
         nm = names[i]
+        if pre and nm == pre['late']:
+            continue
         t, s, d, v = tab[nm]
-        kw[nm] = dict(data=np.array(v, dtype=NPT[t]), type=t, default=d,
-                      stride=s)
+        data = np.array(v, dtype=NPT[t])[:n0 * s]
+        if ne:
+            if nm == 'uid':
+                ext = np.arange(DECOY_UID, DECOY_UID + ne)
+            elif nm == 'tag':
+                ext = np.array([(0, 2, 1)[j % 3] for j in range(ne)])
+            else:
+                ext = np.empty(ne * s, dtype=NPT[t])
+                ext[:] = d
+            data = np.concatenate([data, ext.astype(NPT[t])])
+        kw[nm] = dict(data=data, type=t, default=d, stride=s)
     consts = {c['name']: np.array(c['values'], dtype=c['dtype'])
               for c in a['constants']}
     pa = ParticleArray(name=a['name'], constants=consts, **kw)
-    pa.set_output_arrays(list(a['output']))
+    pa.set_output_arrays(list(pre['output'] if pre else a['output']))
     return pa
+
+
+def grow_array(pa, a, pre):
+    """Bring the earlier state built by build_array(a, pre) to the model's
+    state with the public ParticleArray operations."""
+    import numpy as np
+    tab = prop_table(a)
+    names = [p['name'] for p in a['props']] + ['tag']
+    uid = pa.get('uid', only_real_particles=False)
+    rm = np.where(uid >= DECOY_UID)[0]
+    if len(rm):
+        pa.remove_particles(rm)
+    n0 = a['n'] - pre['hold']
+    if pre['hold']:
+        kw = {}
+        for nm in names:
+            if nm == pre['late']:
+                continue
+            t, s, d, v = tab[nm]
+            kw[nm] = np.array(v, dtype=NPT[t])[n0 * s:]
+        pa.add_particles(**kw)
+    if pre['late']:
+        nm = pre['late']
+        t, s, d, v = tab[nm]
+        mv = np.array(v, dtype=NPT[t])
+        where = {float(u): i for i, u in enumerate(tab['uid'][3])}
+        cur = pa.get('uid', only_real_particles=False).tolist()
+        if cur:
+            data = np.concatenate([mv[where[float(u)] * s:
+                                      (where[float(u)] + 1) * s]
+                                   for u in cur])
+            pa.add_property(nm, type=t, default=d, data=data, stride=s)
+        else:
+            pa.add_property(nm, type=t, default=d, stride=s)
+    pa.set_output_arrays(list(a['output']))
+
+
+class FakeComm(object):
+    """A communicator with a single rank."""
+
+    def gather(self, data, root=0):
+        return [data]
+
+    def Get_rank(self):
+        return 0
+
+    def Get_size(self):
+        return 1
+
+
+def call_dump(case, arg, target, pas, sd, state):
+    from pysph.solver.utils import dump
+    from pysph.solver.output import NumpyOutput, HDFOutput
+    det, onr, cmp_ = case['detailed'], case['only_real'], case['compress']
+    style = case.get('call') or 'kw0'
+    if style == 'kw0':      # committed replays
+        dump(arg, pas, sd, detailed_output=det, only_real=onr, compress=cmp_)
+    elif style == 'kw':
+        dump(arg, pas, sd, detailed_output=det, only_real=onr,
+             mpi_comm=None, compress=cmp_)
+    elif style == 'pos':
+        dump(arg, pas, sd, det, onr, None, cmp_)
+    elif style == 'comm':
+        dump(arg, pas, sd, detailed_output=det, only_real=onr,
+             mpi_comm=FakeComm(), compress=cmp_)
+    else:
+        kw = {}
+        if det:
+            kw['detailed_output'] = True
+        if not onr:
+            kw['only_real'] = False
+        if cmp_:
+            kw['compress'] = True
+        if style == 'defaults':
+            dump(arg, pas, sd, **kw)
+            return
+        out = state.get('out')
+        if out is None:
+            klass = HDFOutput if case['fmt'] == 'hdf5' else NumpyOutput
+            if style == 'class':
+                out = klass(det, onr, None, cmp_)
+            else:
+                out = klass(**kw)
+            state['out'] = out
+        out.dump(target, pas, sd)
+
+
+def call_load(case, target, state):
+    from pysph.solver.utils import load, iter_output
+    from pysph.solver.output import NumpyOutput, HDFOutput
+    how = case.get('loader') or 'load'
+    names = [a['name'] for a in case['arrays']][::-1]
+    if how == 'iter_named' and not names:
+        how = 'iter'
+    if how == 'load':
+        return load(target)
+    if how == 'class':
+        out = state.get('out')
+        if out is None:
+            out = HDFOutput() if target.endswith('hdf5') else NumpyOutput()
+        return out.load(target)
+    if how == 'iter':
+        res = list(iter_output([target]))
+        if len(res) != 1 or len(res[0]) != 2:
+            return res
+        return dict(solver_data=res[0][0], arrays=res[0][1])
+    res = list(iter_output([target], *names))
+    if len(res) != 1 or len(res[0]) != 1 + len(names):
+        return res
+    return dict(solver_data=res[0][0], arrays=dict(zip(names, res[0][1:])))
 
 
 def _eq(a, b):
@@ -457,12 +682,54 @@ def labels_of(case):
             L.append('again:' + case['again'])
         if case.get('np_solver'):
             L.append('np_solver')
+        call = case.get('call') or 'kw'
+        L.append('call:' + call)
+        if call in ('defaults', 'class_defaults') and case['only_real'] \
+                and any(t != 0 for a in case['arrays'] for t in a['tags']):
+            L.append('default_only_real')
+        L.append('loader:' + (case.get('loader') or 'load'))
+        path = case.get('path') or 'plain'
+        if path != 'plain':
+            L.append('dotted_path')
+            if not case['ext'] and path in ('dotbase', 'dotboth') and \
+                    not call.startswith('class'):
+                L.append('dotted_noext')
+        if case.get('pre') and case['arrays']:
+            L.append('history')
+            if call.startswith('class'):
+                L.append('history_class_reuse')
+            for q in case['pre']:
+                if q['late']:
+                    L.append('late_prop')
+                if q['hold']:
+                    L.append('held_back')
+                if q['extra']:
+                    L.append('decoys_removed')
+        if case.get('again') and case.get('again_opts') and (
+                case['again_opts']['detailed'] != case['detailed'] or
+                case['again_opts']['only_real'] != case['only_real']):
+            L.append('again_other_opts')
     L.append('detailed' if case['detailed'] else 'brief')
     L.append('only_real' if case['only_real'] else 'all_particles')
     if len(case['arrays']) > 1:
         L.append('multi_array')
     if len(case['solver_data']) > 3:
         L.append('solver_extras')
+    if not case['solver_data']:
+        L.append('sd_empty')
+    for v in case['solver_data'].values():
+        if isinstance(v, str):
+            L.append('v1_sd_str' if v1 else 'sd_str')
+        elif isinstance(v, bool):
+            L.append('sd_bool')
+    if not case['arrays']:
+        L.append('no_arrays')
+    if any(isinstance(v, int) and not isinstance(v, bool) and
+           abs(v) > 2 ** 53 for v in case['solver_data'].values()):
+        L.append('sd_big_int')
+
+    def uni(x):
+        return any(ord(ch) > 127 for ch in x)
     nontrivial = False
     for a in case['arrays']:
         stored = stored_names(a, case['detailed'])
@@ -497,17 +764,75 @@ def labels_of(case):
         L.append('output_subset' if a['output'] else 'output_all')
         if a['constants']:
             L.append('constants')
+        if uni(a['name']) or any(uni(x) for x in tab) or \
+                any(uni(c['name']) for c in a['constants']):
+            L.append('unicode_name')
+        if any(uni(x) for x in a['output']):
+            L.append('unicode_output')
+        if not all(x.isidentifier() for x in [a['name']] + list(tab) +
+                   [c['name'] for c in a['constants']]):
+            L.append('odd_name')
+        if any(p['default'] == 0 for p in a['props']
+               if p['name'] not in ('pid', 'gid', 'uid')):
+            L.append('zero_default')
+        if any(p['type'] == 'long' and abs(p['default']) > 2 ** 53
+               for p in a['props']):
+            L.append('big_long_default')
+        if any(p['type'] == 'long' and p['name'] in stored and
+               any(abs(v) > 2 ** 53 for v in p['values'])
+               for p in a['props']):
+            L.append('big_long_value')
     return sorted(set(L)), nontrivial
 
 
 def run_v2(case, d):
-    from pysph.solver.utils import dump, load
     fmt = case['fmt']
     kl0 = dict(fmt=fmt)
+    pre_case = case.get('pre') if case['arrays'] else None
     try:
-        pas = [build_array(a) for a in case['arrays']]
+        if pre_case:
+            pas = [build_array(a, q)
+                   for a, q in zip(case['arrays'], pre_case)]
+        else:
+            pas = [build_array(a) for a in case['arrays']]
     except Exception as ex:
         raise RuntimeError('cannot build the input arrays: %r' % (ex,))
+    cnt = case['solver_data'].get('count', 0) % 1000
+    path = case.get('path') or 'plain'
+    if path in ('dotdir', 'dotboth'):
+        d = os.path.join(d, 'run.v2_output')
+        os.makedirs(d)
+    stem = 'my.out_%d' if path in ('dotbase', 'dotboth') else 'out_%d'
+    base = os.path.join(d, stem % cnt)
+    target = base + '.' + fmt
+    arg = target if case['ext'] else base
+    sd = dict(case['solver_data'])
+    if case.get('np_solver'):
+        import numpy as np
+        sd = {k: (v if isinstance(v, str) else np.bool_(v)
+                  if isinstance(v, bool) else np.int64(v)
+                  if isinstance(v, int) else np.float64(v))
+              for k, v in sd.items()}
+    sd0 = dict(sd)
+    state = {}
+    expect_files = [os.path.basename(target)]
+    if pre_case:
+        # the same arrays were dumped once before, in an earlier state
+        base0 = os.path.join(d, stem % (cnt + 1000))
+        target0 = base0 + '.' + fmt
+        try:
+            call_dump(case, target0 if case['ext'] else base0, target0,
+                      pas[::-1], dict(sd), state)
+        except Exception as ex:
+            return [Failure(fmt, 'exception', 'dump raised %r' % (ex,),
+                            dict(kl0, stage='dump', exc=type(ex).__name__,
+                                 msg=sanitize(ex)))]
+        expect_files.append(os.path.basename(target0))
+        try:
+            for pa, a, q in zip(pas, case['arrays'], pre_case):
+                grow_array(pa, a, q)
+        except Exception as ex:
+            raise RuntimeError('cannot grow the input arrays: %r' % (ex,))
     pre = []
     for pa, a in zip(pas, case['arrays']):
         keep = list(range(a['n']))
@@ -516,39 +841,31 @@ def run_v2(case, d):
     if pre:
         raise RuntimeError('input arrays do not match the model: %s' %
                            pre[0].detail)
-    base = os.path.join(d, 'out_%d' % (case['solver_data']['count'] % 1000))
-    target = base + '.' + fmt
-    arg = target if case['ext'] else base
-    sd = dict(case['solver_data'])
-    if case.get('np_solver'):
-        import numpy as np
-        sd = {k: (np.int64(v) if isinstance(v, int) else np.float64(v))
-              for k, v in sd.items()}
-    sd0 = dict(sd)
     try:
-        dump(arg, pas, sd, detailed_output=case['detailed'],
-             only_real=case['only_real'], compress=case['compress'])
+        call_dump(case, arg, target, pas, sd, state)
     except Exception as ex:
         return [Failure(fmt, 'exception', 'dump raised %r' % (ex,),
                         dict(kl0, stage='dump', exc=type(ex).__name__,
                              msg=sanitize(ex)))]
     files = sorted(os.listdir(d))
-    if files != [os.path.basename(target)]:
+    if files != sorted(expect_files):
         return [Failure(fmt, 'file_name', 'dump(%r) wrote %s' % (
-            os.path.basename(arg), files), kl0)]
+            os.path.basename(arg), files),
+            dict(kl0, dotted=path != 'plain'))]
     F = []
     if sd != sd0:
         F.append(Failure(fmt, 'input_modified', 'dump changed the solver '
                          'data dict', kl0))
     try:
-        data = load(target)
+        data = call_load(case, target, state)
     except Exception as ex:
         return F + [Failure(fmt, 'exception', 'load raised %r' % (ex,),
                             dict(kl0, stage='load', exc=type(ex).__name__,
                                  msg=sanitize(ex)))]
-    F += compare_loaded(case, data, kl0)
+    rounds = [(case['detailed'], case['only_real'])]
+    F += compare_loaded(case, data, kl0, rounds=rounds)
     if not F and case.get('again'):
-        F += second_round(case, data, d)
+        F += second_round(case, data, d, rounds)
     # the dumped arrays themselves must be unchanged
     for pa, a in zip(pas, case['arrays']):
         keep = list(range(a['n']))
@@ -560,19 +877,21 @@ def run_v2(case, d):
     return F
 
 
-def second_round(case, data, d):
-    """Dump what was loaded (same options, drawn format) and load again:
-    the result must still match the model."""
+def second_round(case, data, d, rounds):
+    """Dump what was loaded (same or other options, drawn format) and load
+    again: the result must still match the model."""
     from pysph.solver.utils import dump, load
     fmt2 = case['again']
     kl0 = dict(fmt=fmt2, reload_of=case['fmt'])
+    opts = case.get('again_opts') or dict(detailed=case['detailed'],
+                                          only_real=case['only_real'])
     pas = [data['arrays'][a['name']] for a in case['arrays']]
     d2 = os.path.join(d, 'again')
     os.makedirs(d2)
     target = os.path.join(d2, 'again_1.' + fmt2)
     try:
         dump(target, pas, data['solver_data'],
-             detailed_output=case['detailed'], only_real=case['only_real'],
+             detailed_output=opts['detailed'], only_real=opts['only_real'],
              compress=case['compress'])
     except Exception as ex:
         return [Failure(fmt2, 'exception', 'dump of loaded arrays raised %r'
@@ -585,11 +904,13 @@ def second_round(case, data, d):
         return [Failure(fmt2, 'exception', 'load raised %r' % (ex,),
                         dict(kl0, stage='load', exc=type(ex).__name__,
                              msg=sanitize(ex)))]
-    return compare_loaded(case, data2, kl0, fmt2)
+    return compare_loaded(case, data2, kl0, fmt2,
+                          rounds + [(opts['detailed'], opts['only_real'])])
 
 
 def compare_solver_data(fmt, got, exp, kl0):
     import math
+    import numpy as np
     F = []
     try:
         gk = sorted(got.keys())
@@ -601,14 +922,20 @@ def compare_solver_data(fmt, got, exp, kl0):
             gk, sorted(exp)), dict(kl0, what='keys'))]
     for k, v in exp.items():
         g = got[k]
-        ok = _eq(g, v)
-        if ok:
-            # an int must not come back as a rounded float and vice versa
-            try:
-                ok = (int(g) == int(v)) if isinstance(v, int) else \
-                    (float(g) == v and math.isfinite(float(g)))
-            except Exception:
-                ok = False
+        if isinstance(v, str):
+            ok = isinstance(g, str) and g == v
+        elif isinstance(v, bool):
+            ok = isinstance(g, (bool, np.bool_)) and bool(g) == v
+        else:
+            ok = _eq(g, v) and not isinstance(g, (bool, np.bool_, str))
+            if ok:
+                # an int must not come back as a rounded float and vice
+                # versa
+                try:
+                    ok = (int(g) == int(v)) if isinstance(v, int) else \
+                        (float(g) == v and math.isfinite(float(g)))
+                except Exception:
+                    ok = False
         if not ok:
             F.append(Failure(fmt, 'solver_data', '%s = %r, expected %r' % (
                 k, g, v), dict(kl0, what='value',
@@ -617,8 +944,10 @@ def compare_solver_data(fmt, got, exp, kl0):
     return F
 
 
-def compare_loaded(case, data, kl0, fmt=None):
+def compare_loaded(case, data, kl0, fmt=None, rounds=None):
     fmt = fmt or case['fmt']
+    if rounds is None:
+        rounds = [(case['detailed'], case['only_real'])]
     F = []
     if not isinstance(data, dict) or 'arrays' not in data or \
             'solver_data' not in data:
@@ -633,17 +962,9 @@ def compare_loaded(case, data, kl0, fmt=None):
         return F
     for a in case['arrays']:
         pa = data['arrays'][a['name']]
-        stored = stored_names(a, case['detailed'])
-        if case['only_real']:
-            keep = [i for i in range(a['n']) if a['tags'][i] == 0]
-        else:
-            keep = list(range(a['n']))
-        if 'tag' in stored:
-            exp_tags = [a['tags'][i] for i in keep]
-        else:
-            exp_tags = [0] * len(keep)
+        stored, keep, exp_tags = expectation(a, rounds)
         F += compare_array(fmt, pa, a, stored, keep, exp_tags, a['output'],
-                           kl0, only_real=case['only_real'])
+                           kl0, only_real=rounds[-1][1])
     return F
 
 
@@ -680,9 +1001,10 @@ def run_v1(case, d):
             ad[key(nm)] = full[keep] if keep else full[:0]
         arrays[key(a['name'])] = ad
         exp[a['name']] = (a, tab, stored, keep)
-    sd = {key(k): v for k, v in case['solver_data'].items()}
+    sd = {key(k): (key(v) if isinstance(v, str) else v)
+          for k, v in case['solver_data'].items()}
     target = os.path.join(d, 'old_%d.npz' % (
-        case['solver_data']['count'] % 1000))
+        case['solver_data'].get('count', 0) % 1000))
     np.savez(target, version=1, arrays=arrays, solver_data=sd)
     try:
         data = load(target)
@@ -775,7 +1097,7 @@ def check(case, scratch):
 
 # -------------------------------------------------------------------- driver
 def plan(ctx):
-    n = 800 if ctx['tier'] == 'quick' else 40000
+    n = 1600 if ctx['tier'] == 'quick' else 40000
     k = 16
     specs = []
     for i in range(k):
